@@ -168,11 +168,11 @@ func scenarios() []*scenario {
 			Name: "conflicts",
 			Txs: []txSpec{
 				{Name: "z", Signers: []string{"S1"}, Net: 10000},
-				{Name: "y", Signers: []string{"S2", "S1"}, Net: 20000, Confl: []string{"z"}},   // names z, shares signer S1
-				{Name: "x", Signers: []string{"S1", "S2"}, Net: 30000, Confl: []string{"y"}},   // chain x -> y -> z
-				{Name: "w", Signers: []string{"S3"}, Net: 40000, Confl: []string{"z"}},         // stranger naming z
-				{Name: "v", Signers: []string{"S2", "S1"}, Net: 5000, Confl: []string{"z"}},    // cheaper than z
-				{Name: "u", Signers: []string{"S1"}, Net: 50000, Confl: []string{"z", "y"}},    // names two
+				{Name: "y", Signers: []string{"S2", "S1"}, Net: 20000, Confl: []string{"z"}}, // names z, shares signer S1
+				{Name: "x", Signers: []string{"S1", "S2"}, Net: 30000, Confl: []string{"y"}}, // chain x -> y -> z
+				{Name: "w", Signers: []string{"S3"}, Net: 40000, Confl: []string{"z"}},       // stranger naming z
+				{Name: "v", Signers: []string{"S2", "S1"}, Net: 5000, Confl: []string{"z"}},  // cheaper than z
+				{Name: "u", Signers: []string{"S1"}, Net: 50000, Confl: []string{"z", "y"}},  // names two
 				{Name: "q", Signers: []string{"S3"}, Net: 1000},
 			},
 			Bal:  map[string]int64{"S1": 60000, "S2": 30000, "S3": 45000},
